@@ -350,6 +350,8 @@ def scan_order(ctx: Context, res, roots, rule_a: str, rule_b: str) -> Tuple[int,
             #     shifts the later positions, so the result depends on the order of the mode tuple (right for ascending modes only)
             if isinstance(n, ast.For):
                 it = n.iter
+                if isinstance(it, ast.Call) and (dotted(it.func) or "") == "reversed" and len(it.args) == 1:
+                    it = it.args[0]   # the reverse of the order the user wrote is as order-dependent as the order itself
                 srcs: List[Tuple[ast.AST, ast.AST]] = []
                 if mt.derived(it):
                     srcs.append((n.target, it))
@@ -374,6 +376,16 @@ def scan_order(ctx: Context, res, roots, rule_a: str, rule_b: str) -> Tuple[int,
                                           f"`{norm(c)[:80]}` edits `{obj.id}` at a position taken from the mode tuple inside a loop over the mode tuple: every "
                                           f"edit shifts the later positions, so the result is right for ascending modes only (Q(2, 0) differs from Q(0, 2))",
                                           norm(c)[:100])
+                    # `del obj[m]` is the statement form of the same edit
+                    for dl in [x for b in n.body for x in ast.walk(b) if isinstance(x, ast.Delete)]:
+                        for t in dl.targets:
+                            if isinstance(t, ast.Subscript) and isinstance(t.value, ast.Name) and isinstance(t.slice, ast.Name) and t.slice.id in loop_vars:
+                                key = f"{fn.qualname}|sequential del at positions from the mode tuple"
+                                ctx.violation(rule_b, key, fn.file, dl.lineno,
+                                              f"`{norm(dl)[:80]}` deletes from `{t.value.id}` at a position taken from the mode tuple inside a loop over the mode "
+                                              f"tuple (in the order the user wrote it, or its reverse): every deletion shifts the later positions, so the result "
+                                              f"is right for ascending modes only (Q(2, 0) differs from Q(0, 2)); iterate `sorted(..., reverse=True)` instead",
+                                              norm(dl)[:100])
             # (b) destroyed order that is bound / passed / returned
             cand: List[Tuple[ast.AST, str]] = []
             if isinstance(n, ast.Assign):
